@@ -289,6 +289,22 @@ def run(ctx):
                                 ok = b in A.reach(fn, true_t) and b not in A.reach(fn, zero, avoid=true_t)
                     ctx.ob("R-C05.5", fn, "watermark-write-%s" % leaf, ok,
                            "GC watermark written by %s in %s%s" % (leaf, fid, "" if ok else " — only gc (fetch_max) and pullup (store, when no snapshot is registered) may move it"), fn.loc(b))
+                    if fid == TRACKER + "::pullup" and leaf == "store" and len(t["args"]) > 1:
+                        # pullup stores something BELOW the visible seqno: a view opened right afterwards reads at the visible
+                        # seqno and must still find every version <= its instant
+                        v = ctx.og(fn).of_operand(t["args"][1])
+                        below = False
+                        for x in A.walk(v):
+                            if x.k == "call" and x.a[0].endswith(("::saturating_sub", "::checked_sub", "::wrapping_sub")) and x.a[1] and \
+                                    any(y.k == "call" and y.a[0].endswith("SequenceNumberCounter::get") for y in A.walk(x.a[1][0])):
+                                below = True
+                            if x.k == "bin" and str(x.a[0]).startswith("Sub") and any(y.k == "call" and y.a[0].endswith("SequenceNumberCounter::get") for y in A.walk(x.a[1])):
+                                below = True
+                        grows = any((x.k == "call" and x.a[0].endswith(("::saturating_add", "::checked_add", "::wrapping_add"))) or (x.k == "bin" and str(x.a[0]).startswith("Add")) for x in A.walk(v))
+                        okp = below and not grows
+                        ctx.ob("R-C05.5", fn, "pullup-stays-below-the-visible-seqno", okp,
+                               "pullup stores visible_seqno - 1" if okp else
+                               "pullup raises the GC watermark to %s — not below the visible seqno: a compaction may then drop versions that a snapshot opened right after the pullup (instant = visible seqno) still reads" % A.tstr(v)[:80], fn.loc(b))
     ctx.floor("R-C05.5", "watermark write sites", writers, 2)
     GC_CALLS = {"flush": 2, "compact": 2, "major_compact": 2}
     thr = 0
